@@ -261,7 +261,7 @@ def _fold_constant_switches(mir):
         blk["t"] = {"k": "goto", "target": hit[0] if hit else t["otherwise"], "folded_switch": True}
 
 
-def same_impl_helpers(body):
+def same_impl_helpers(body, module=False, exclude=()):
     """predicate: callee is a non-derived method/function defined next to `body` (same parent impl/module), i.e. a private
     helper the function was split into"""
     parent = body.raw.get("parent") or body.name.rsplit("::", 1)[0]
@@ -287,5 +287,11 @@ def same_impl_helpers(body):
             return False
         if fn.raw.get("pub") or fn.raw.get("exported"):
             return False   # public API is what the rules are written against; only private helpers are spliced
-        return n.rsplit("::", 1)[0] == pname
+        if n in exclude:
+            return False
+        par = n.rsplit("::", 1)[0]
+        if par == pname:
+            return True
+        # private free function of the module the impl (or the function) lives in
+        return module and not fn.impl and (par == pname.rsplit("::", 1)[0] or par == pname)
     return want
